@@ -346,9 +346,11 @@ CLAIMS: dict[str, tuple[str, str, str, str]] = {
     "C18": (
         "PARTIAL, with FULL theorems on the renderer model for the option clauses: xhtml_local (toggling xhtmlOut changes "
         "only the slash flag of tag pieces, for every stream), breaks_local + softbreak_as_hardbreak, langPrefix_local, "
-        "alt_independent; the parser model has no renderer option in its type. MISSING: the parseInline/renderInline and "
-        "block-context clauses rest on the block rules handing the inline parser exactly the text (block rules not "
-        "modelled): decided by the oracle (single-paragraph inputs; 5 contexts; token streams under all 16 option "
+        "alt_independent; the parser model has no renderer option in its type. On the end-to-end model (lean/MdIt/Pipeline.lean, ties `fullparse`, "
+        "`fullrender`, `parseinline`) full_inline_local and inline_same_as_parseInline (Props/C18b.lean): every inline token of a whole parse carries, as "
+        "children, a function of its own content, the configuration and the env alone — the same children parseInline gives that text — so nothing of "
+        "the block context (level, container, neighbours) enters. MISSING: that the block rules hand the inline parser exactly the text is tied, not "
+        "proved, for table cells; the clauses are also decided by the oracle (single-paragraph inputs; 5 contexts; token streams under all 16 option "
         "combinations; HTML under each combination equals the baseline after the documented local change). Tie: renderer "
         "model vs real renderer (shared with C04) + option keys read during parse recorded by a logging OptionsDict.",
         NOTE,
